@@ -80,9 +80,10 @@ def make_scenario(ctx, rnd, sid, model, ngroup, gauss, clip=False):
     extra = {k: [] for k in ("data_bg_value", "phsp_bg_value", "data_eff_value", "phsp_eff_value")}
     s.wb = round(rnd.uniform(0.1, 0.6), 3)
     for gi in range(ngroup):
-        nd = rnd.randrange(8, 25 if ctx.tier == "quick" else 33)
-        nb = rnd.randrange(3, 9)
-        nm = rnd.randrange(10, 31)
+        sz = getattr(ctx, "sizes", None) or (8, 25 if ctx.tier == "quick" else 33, 3, 9, 10, 31)
+        nd = rnd.randrange(sz[0], sz[1])
+        nb = rnd.randrange(sz[2], sz[3])
+        nm = rnd.randrange(sz[4], sz[5])
         s.nd.append(nd); s.nm.append(nm); s.nb.append(nb if s.bgkind != "none" else 0)
         seed = rnd.randrange(1, 10 ** 6)
         f = os.path.join(d, "data%d.dat" % gi); np.savetxt(f, gen_p4(nd, seed)); data["data"].append([f])
